@@ -3,6 +3,7 @@ import CasbinModel.Lemmas.Store
 import CasbinModel.Lemmas.Batch
 import CasbinModel.Lemmas.Load
 import CasbinModel.Lemmas.Shape
+import CasbinModel.Lemmas.AutoSave
 /-!
 # C14 — Change notifications are a faithful changelog
 
@@ -802,5 +803,64 @@ example : ∃ evs, ([WOp.mgmt (.add "p" "p" ["a"]), .save, .clear, .save].foldl 
   replica_history_full _ demo demo_ready2
 example : ([WOp.mgmt (.add "p" "p" ["a"]), .clear, .save].foldl WOp.run demo).log =
     [Event.addPolicy "p" "p" ["a"], Event.clearPolicy, Event.savePolicy []] := by decide +kernel
+
+/-! ### Auto-save on or off -/
+
+/-- with auto-save on, each of the five calls either stops at the adapter (an error, or a veto: only the adapter's own state
+moves) or is the auto-save-off call on the enforcer that holds the adapter's new state, the switch put back afterwards -/
+theorem run_on (e : Enforcer) (hs : e.autoSave = true) (op : NOp) :
+    (∃ a, op.run e = ({ e with adapter := a } : Enforcer)) ∨
+    (∃ a, op.run e = (op.run (({ e with adapter := a } : Enforcer).withSave false)).withSave true) := by
+  cases op with
+  | add sec pt rule => exact addPolicy_on e hs sec pt rule
+  | remove sec pt rule => exact removePolicy_on e hs sec pt rule
+  | addMany sec pt rules => exact addPolicies_on e hs sec pt rules
+  | removeMany sec pt rules => exact removePolicies_on e hs sec pt rules
+  | removeFiltered sec pt idx vals => exact removeFiltered_on e hs sec pt idx vals
+
+/-- notifications live and rule lists duplicate free - the auto-save switch and the adapter are left open -/
+structure ReadyAny (e : Enforcer) : Prop where
+  live : Live e
+  wf : e.store.WF
+
+theorem step_follows_any (e : Enforcer) (h : ReadyAny e) (op : NOp) :
+    (∃ evs, (op.run e).log = e.log ++ evs ∧ SEq (evs.foldl applyEvent e.store) (op.run e).store) ∧
+    ReadyAny (op.run e) := by
+  by_cases hs : e.autoSave = true
+  · rcases run_on e hs op with ⟨a, h1⟩ | ⟨a, h1⟩
+    · rw [h1]
+      exact ⟨⟨[], by simp, SEq.refl _⟩, ⟨⟨h.live.notify, h.live.one, h.live.watcher⟩, h.wf⟩⟩
+    · have hr : Ready (({ e with adapter := a } : Enforcer).withSave false) :=
+        ⟨rfl, ⟨h.live.notify, h.live.one, h.live.watcher⟩, h.wf⟩
+      obtain ⟨evs, hl, hse⟩ := step_follows _ hr op
+      have hrr := run_ready _ hr op
+      rw [h1]
+      exact ⟨⟨evs, hl, hse⟩, ⟨⟨hrr.live.notify, hrr.live.one, hrr.live.watcher⟩, hrr.wf⟩⟩
+  · have hs' : e.autoSave = false := by cases hh : e.autoSave <;> simp_all
+    have hr : Ready e := ⟨hs', h.live, h.wf⟩
+    exact ⟨step_follows e hr op, ⟨(run_ready e hr op).live, (run_ready e hr op).wf⟩⟩
+
+/-- **the changelog is faithful over every history of the five management calls with auto-save on or off and whatever the
+adapter answers** (accepts, vetoes, fails): a call the adapter stops delivers nothing and changes no rule; an accepted
+one delivers exactly what the replica needs -/
+theorem replica_history_any (ops : List NOp) (e : Enforcer) (h : ReadyAny e) :
+    ∃ evs, (ops.foldl NOp.run e).log = e.log ++ evs ∧
+      SEq (evs.foldl applyEvent e.store) (ops.foldl NOp.run e).store := by
+  induction ops generalizing e with
+  | nil => exact ⟨[], by simp, SEq.refl _⟩
+  | cons op ops ih =>
+    obtain ⟨⟨ev1, hl1, hs1⟩, hnext⟩ := step_follows_any e h op
+    obtain ⟨evs', hl2, hs2⟩ := ih (op.run e) hnext
+    refine ⟨ev1 ++ evs', ?_, ?_⟩
+    · simp only [List.foldl_cons]; rw [hl2, hl1, List.append_assoc]
+    · simp only [List.foldl_cons, List.foldl_append]
+      exact SEq.trans (foldEvents_congr evs' hs1) hs2
+
+/-- the premise holds of the demo enforcer with auto-save switched on over a memory adapter -/
+example : ReadyAny ({ demo with autoSave := true, adapter := AdapterSt.mk0 .memory } : Enforcer) :=
+  ⟨⟨rfl, rfl, rfl⟩, demo_ready.wf⟩
+example : ([NOp.add "p" "p" ["a"], .add "p" "p" ["a"], .remove "p" "p" ["a"]].foldl NOp.run
+    ({ demo with autoSave := true, adapter := AdapterSt.mk0 .memory } : Enforcer)).log =
+    [Event.addPolicy "p" "p" ["a"], Event.removePolicy "p" "p" ["a"]] := by decide +kernel
 
 end Casbin.C14
